@@ -106,7 +106,7 @@ void vf_harness(void) {
   int vf_len = nondet_int(); __CPROVER_assume(1 <= vf_len && vf_len <= LMAX);
   unsigned mask = nondet_u32(), key = mask;
   /* Array<byte> data(p, length); resize(+4); resize(-4): capacity >= length + 4 and length unchanged (contract of Array::resize, C01) */
-  byte* vf_data = malloc(vf_len + 4); byte orig[LMAX + 4];
+  byte* vf_data = malloc(vf_len + 4); __CPROVER_assume(vf_data != 0); byte orig[LMAX + 4];
   for (int i = 0; i < LMAX + 4; i++) { orig[i] = nondet_u8(); if (i < vf_len + 4) vf_data[i] = orig[i]; }
 #define VF_CAPACITY_PLUS4
   __CPROVER_assume(0 <= g_k && g_k < vf_len);
